@@ -14,6 +14,16 @@ SSR = ("json_to_models/dynamic_typing/string_serializable.py", "StringSerializab
 GEN = ("json_to_models/generator.py", "MetadataGenerator._detect_type")
 
 
+# exceptions third-party parsers raise for text they cannot parse (trusted table; dateutil lets OverflowError escape
+# for huge numbers, e.g. parse("Jan 99999999999"))
+THIRD_PARTY_RAISES = {
+    "dateutil.parser.parse": ("ValueError", "OverflowError"),
+    "dateutil.parser.isoparse": ("ValueError",),
+    "parse": ("ValueError", "OverflowError"),
+    "isoparse": ("ValueError",),
+}
+
+
 def rule_det1(ctx: Ctx) -> RuleResult:
     rr = RuleResult("DET-1", "a pseudo-type is returned only after its own parser accepted the very string", floor=1)
     f = ctx.prog.func(*GEN)
@@ -301,6 +311,24 @@ def rule_det4(ctx: Ctx) -> RuleResult:
         rr.ob(c.module.relpath, c.qualname, f"class {c.name}", "defines actual_type, to_internal_value, "
               "to_representation (and replace for date/time classes)", VIOLATED if missing else DISCHARGED,
               f"missing: {missing}" if missing else "complete", c.node.lineno)
+        # failure contract: what the third-party parsers used by this type can raise is caught by the detector too
+        for f in c.methods.get("to_internal_value", []):
+            reach = ctx.cg.reachable([f], byname=False)
+            need: Dict[str, str] = {}
+            for g in reach:
+                for n in walk_no_nested(g.node):
+                    if isinstance(n, ast.Call) and norm(n.func) in THIRD_PARTY_RAISES:
+                        for e in THIRD_PARTY_RAISES[norm(n.func)]:
+                            need.setdefault(e, f"{norm(n.func)} in {g.qualname}")
+            if need:
+                rr.instances += 1
+                missing = {e: w for e, w in need.items() if e not in handler_types}
+                rr.ob(f.relpath, f.qualname, f"third-party parsers: {sorted(set(need.values()))}"[:110],
+                      f"every exception type the parsers behind `{c.name}` are known to raise for unparseable text is caught "
+                      f"by the detector ({sorted(handler_types)}), so such text is typed str instead of aborting generation",
+                      VIOLATED if missing else DISCHARGED,
+                      f"{sorted(missing)} can escape ({list(missing.values())[0]}): one such string value makes the whole "
+                      f"generation fail" if missing else f"needs {sorted(need)}: all caught", f.node.lineno)
         # failure contract: own raise sites raise what the detector catches
         for k in [c]:
             for f in k.methods.get("to_internal_value", []):
